@@ -21,7 +21,7 @@ ASPECT = "C15"
 
 def shards(tier):
     if tier == "quick":
-        return [{"label": "hist%d" % i, "n": 400} for i in range(8)]
+        return [{"label": "hist%d" % i, "n": 800} for i in range(12)]
     return [{"label": "hist%d" % i, "n": 20000} for i in range(16)]
 
 
